@@ -64,6 +64,8 @@ impl MT291 {
         // Parse optional Field 72
         let field_72 = parser.parse_optional_field::<Field72>("72")?;
 
+        crate::parser::utils::verify_parser_complete(&parser)?;
+
         Ok(MT291 {
             field_20,
             field_21,
